@@ -146,6 +146,34 @@ def do_replay(prop: str, path: str) -> int:
         from .props import idlife
         idlife.replay(case)
         return 0
+    if "history" in case and "older" in case and "newer" in case:
+        # a pair case (C19): the same history under the older and the newer version, step by step, with the oracle's
+        # own verdict on each step (is it inside the property's domain, judged on the real registry; do the runs agree)
+        from . import gw
+        from .props import gateway as gprops
+        h = gw.Hist.from_json(case["history"])
+        a, w = case["older"], case["newer"]
+        ia, ib = gw.run_impl_many([gw.Hist(a, h.metric, h.preload, h.ops), gw.Hist(w, h.metric, h.preload, h.ops)])
+        view = gprops._c19_forget_sleeping if w == "2.2" and a in ("2.0", "2.1") and case.get("sleeping_flag_excepted") else None
+        first, cut, why = gprops._c19_judge(a, w, h.ops, ia, ib, view)
+        for i, op in enumerate(h.ops):
+            print(f"step {i + 1}: {op}")
+            if gprops._c19_is_cross(a, w):
+                out = gprops._c19_out_of_scope(a, op, ia[i]["nodes"])
+                print(f"   registry before ({a}): " + ", ".join(f"{k}:{sorted(v['children'])}" for k, v in ia[i]["nodes"].items())
+                      + ("   -> inside the domain" if out is None else f"   -> OUTSIDE the domain: {out}"))
+            for v, o in ((a, ia[i + 1]), (w, ib[i + 1])):
+                print(f"   {v:>4}: {o['out']}  writes={[x for x in o['writes']]}  ibuf={o['ibuf']}")
+            if gprops._c19_obs(ia[i + 1]) != gprops._c19_obs(ib[i + 1]):
+                print("   DIFFERENT" + (" (outside the judged part)" if cut is not None and i >= cut else ""))
+        print(f"final state ({a}):", ia[-1]["state"])
+        print(f"final state ({w}):", ib[-1]["state"])
+        if first is not None:
+            print(f"reproduced: versions {a} and {w} differ at step {first} inside the property's domain")
+            return 0
+        print("NOT reproduced: no difference inside the property's domain"
+              + (f" (the history leaves it at step {cut + 1}: {why})" if cut is not None else ""))
+        return 0
     if "history" in case:
         from . import gw
         h = gw.Hist.from_json(case["history"])
